@@ -219,3 +219,18 @@ pub fn id_counters(tree: &crate::AnyTree) -> (u64, u64) {
     let t = index_tree(tree);
     (t.table_id_counter.get(), t.blob_file_id_counter.get())
 }
+
+pub use crate::version::Version;
+
+/// Decodes a blob indirection: `(blob file id, offset, on-disk size, value size)`.
+pub fn decode_indirection(bytes: &[u8]) -> Option<(u64, u64, u32, u32)> {
+    use crate::coding::Decode;
+    let mut reader = bytes;
+    let ind = crate::blob_tree::handle::BlobIndirection::decode_from(&mut reader).ok()?;
+    Some((
+        ind.vhandle.blob_file_id,
+        ind.vhandle.offset,
+        ind.vhandle.on_disk_size,
+        ind.size,
+    ))
+}
